@@ -21,7 +21,9 @@ CONSTANTS Scenarios,   \* set of scenarios Init chooses from
                        \*       (self.send(self.start_sender, BenchmarkFailure)); FALSE: as written (self.start_sender(...)
                        \*       raises TypeError twice, the update is poisoned, nobody is told)
           MaxResets,   \* number of ResetRelativeTime messages race control may send between EngineStarted and StopEngine
-          Faults       \* TRUE: the environment may inject one fault (start failure on a host, remote daemon leaving)
+          Faults,      \* TRUE: the environment may inject one fault (start failure on a host, remote daemon leaving)
+          MaxProcs     \* number of started node processes the environment may put into a condition other than alive before
+                       \* they are stopped (already gone, dying while terminated, ignoring SIGTERM)
 
 MaxIp == 2
 RIps == 1..MaxIp
@@ -36,9 +38,13 @@ VARIABLES scn,
                                    \*             remotes[ip] (entries waiting for the daemon on ip), listening
           na,                      \* na[h]: NodeMechanicActor of entry h: exists, alive, eng (self.mechanic none/set),
                                    \*        running (Mechanic.nodes non-empty), cfgs (Mechanic.node_configs non-empty)
-          nd,                      \* nd[n]: observations per node id: starts, stops, stored, inst (install dir absent/present/removed)
+          nd,                      \* nd[n]: observations per node id: starts, stops (look-ups of its process by
+                                   \*        ProcessLauncher.stop = the node was handled by a stop), term (terminate() calls),
+                                   \*        sysm (system metrics stored by its telemetry), stored (results stored by
+                                   \*        Mechanic._add_results), inst (install dir absent/present/removed),
+                                   \*        proc (its OS process: alive | early | late | stubborn, set by the environment)
           ho,                      \* ho[h]: number of flush(refresh=True) of the host's system metrics store
-          env,                     \* environment: up (remote daemons in the convention), left, fault, stopSent, resets, torn
+          env,                     \* environment: up (remote daemons in the convention), left, fault, stopSent, resets, torn, procs
           act                      \* last action (hidden by VIEW)
 
 chans == <<rc2m, m2d, d2m, sys2d, d2n, n2m, m2n, n2d>>
@@ -84,7 +90,7 @@ Reset(k) == [Msg("ResetRelativeTime") EXCEPT !.a = k]
 A(name, a, b) == [name |-> name, a |-> a, b |-> b]
 
 InitNa == [exists |-> FALSE, alive |-> FALSE, eng |-> "none", running |-> FALSE, cfgs |-> FALSE]
-InitNd == [starts |-> 0, stops |-> 0, stored |-> 0, inst |-> "absent"]
+InitNd == [starts |-> 0, stops |-> 0, term |-> 0, sysm |-> 0, stored |-> 0, inst |-> "absent", proc |-> "alive"]
 InitMech == [alive |-> TRUE, status |-> "none", children |-> <<>>, resp |-> 0, ext |-> FALSE]
 InitDisp == [exists |-> FALSE, alive |-> FALSE, pending |-> <<>>, remotes |-> [ip \in RIps |-> <<>>], listening |-> FALSE]
 NoChan(s) == [h \in Hosts(s) |-> <<>>]
@@ -98,7 +104,7 @@ InitFor(s, up) ==
     /\ na = [h \in Hosts(s) |-> InitNa]
     /\ nd = [n \in NodeIds(s) |-> InitNd]
     /\ ho = [h \in Hosts(s) |-> 0]
-    /\ env = [up |-> up, left |-> {}, fault |-> "none", stopSent |-> FALSE, resets |-> 0, torn |-> FALSE]
+    /\ env = [up |-> up, left |-> {}, fault |-> "none", stopSent |-> FALSE, resets |-> 0, torn |-> FALSE, procs |-> 0]
     /\ act = A("Init", 0, "")
 
 Init == \E s \in Scenarios : \E up \in SUBSET RemoteTargets(s) : InitFor(s, up)
@@ -115,10 +121,13 @@ ToM(q, m) == IF mech.alive THEN Append(q, m) ELSE q
 ToD(q, m) == IF DAlive THEN Append(q, m) ELSE q
 
 (* Mechanic.stop_engine() on entry h: launcher.stop(nodes), flush_metrics(refresh=True), store results per node,        *)
-(* provisioner.cleanup per node configuration                                                                       *)
+(* provisioner.cleanup per node configuration.  ProcessLauncher.stop looks every node's process up, terminates it       *)
+(* unless it is already gone, and stores the node's system metrics in any case.                                         *)
 StopNd(h) == [n \in NodeIds(scn) |->
                 IF HostOf(scn, n) = h
                 THEN [nd[n] EXCEPT !.stops = IF na[h].running THEN @ + 1 ELSE @,
+                                   !.term = IF na[h].running /\ nd[n].proc # "early" THEN @ + 1 ELSE @,
+                                   !.sysm = IF na[h].running THEN @ + 1 ELSE @,
                                    !.stored = IF na[h].running THEN @ + 1 ELSE @,
                                    !.inst = IF na[h].cfgs /\ ~scn.preserve THEN "removed" ELSE @]
                 ELSE nd[n]]
@@ -439,6 +448,17 @@ RemoteLeaves(ip) ==
     /\ UNCHANGED <<scn, rc2m, m2d, d2m, n2m, rcbox, mtimers, mech, disp, nd, ho>>
     /\ act' = A("RemoteLeaves", ip, "")
 
+(* the OS process of a started, not yet stopped node gets into condition c: "early" = it is gone before the engine is *)
+(* stopped (crash, OOM kill), "late" = it dies while being terminated, "stubborn" = it ignores SIGTERM.  Nobody is told. *)
+NodeProcess(n, c) ==
+    /\ env.procs < MaxProcs
+    /\ n \in NodeIds(scn) /\ c \in {"early", "late", "stubborn"}
+    /\ NAlive(HostOf(scn, n)) /\ na[HostOf(scn, n)].running /\ nd[n].proc = "alive"
+    /\ nd' = [nd EXCEPT ![n].proc = c]
+    /\ env' = [env EXCEPT !.procs = @ + 1]
+    /\ UNCHANGED <<scn, rc2m, m2d, d2m, sys2d, d2n, n2m, m2n, n2d, rcbox, mtimers, mech, disp, na, ho>>
+    /\ act' = A("NodeProcess", n, c)
+
 -----------------------------------------------------------------------------
 MaxHosts == 3
 ActorStep == \/ MRecvStartEngine \/ MRecvReset \/ MWakeup \/ MRecvFailureD \/ MRecvStopEngine \/ MRecvExit
@@ -467,6 +487,7 @@ Next == \/ MRecvStartEngine \/ MRecvReset \/ MWakeup \/ MRecvFailureD \/ MRecvSt
         \/ RcStop \/ RcTeardown \/ \E k \in {0, 1} : RcReset(k)
         \/ \E ip \in RIps : RemoteJoins(ip)
         \/ \E ip \in RIps : RemoteLeaves(ip)
+        \/ \E n \in NodeIds(scn) : \E c \in {"early", "late", "stubborn"} : NodeProcess(n, c)
 
 Spec == Init /\ [][Next]_vars
 FairSpec == Spec /\ WF_view(Progress)
@@ -480,9 +501,11 @@ StartedOnlyWhenAll == (Started /\ ~scn.ext) => \A n \in NodeIds(scn) : nd[n].sta
 (* no node is ever stopped twice *)
 StopAtMostOnce == \A n \in NodeIds(scn) : nd[n].stops <= 1
 
-(* EngineStopped only after every started node was stopped exactly once, its host's system metrics were flushed and  *)
-(* its results stored, and its installation removed unless preserve is set                                           *)
-NodeDone(n) == /\ nd[n].stops = 1 /\ nd[n].stored >= 1 /\ ho[HostOf(scn, n)] >= 1
+(* EngineStopped only after every started node was stopped exactly once (handled by one stop; terminated unless its   *)
+(* process was already gone), its system metrics were stored and its host's metrics store flushed, its results       *)
+(* stored, and its installation removed unless preserve is set                                                       *)
+NodeDone(n) == /\ nd[n].stops = 1 /\ (nd[n].proc # "early" => nd[n].term = 1)
+               /\ nd[n].sysm >= 1 /\ nd[n].stored >= 1 /\ ho[HostOf(scn, n)] >= 1
                /\ nd[n].inst = IF scn.preserve THEN "present" ELSE "removed"
 StoppedOnlyWhenAll == (Stopped /\ ~scn.ext) => \A n \in NodeIds(scn) : nd[n].starts >= 1 => NodeDone(n)
 
@@ -515,7 +538,7 @@ ExternalAnswered == (scn.ext /\ Quiescent) => /\ NN(scn) > 0 => Started
 StopAcked == (Quiescent /\ env.stopSent) => (Stopped \/ Failed)
 
 TypeOK == /\ mech.resp \in 0..MaxHosts /\ Len(mech.children) <= MaxHosts /\ mtimers \in 0..MaxResets
-          /\ \A n \in NodeIds(scn) : nd[n].starts \in 0..1 /\ nd[n].stops \in 0..1 /\ nd[n].stored \in 0..1
+          /\ \A n \in NodeIds(scn) : nd[n].starts \in 0..1 /\ nd[n].stops \in 0..1 /\ nd[n].stored \in 0..1 /\ nd[n].term \in 0..1 /\ nd[n].sysm \in 0..1
           /\ \A h \in Hosts(scn) : ho[h] \in 0..1
 
 (* liveness under weak fairness of the actors and the cooperating environment *)
